@@ -184,19 +184,28 @@ Theorem C12_history_view :
 Proof. exact view_run. Qed.
 Print Assumptions C12_history_view.
 
-(* ... and Table._get_all_data_files (first occurrence of a path wins) returns exactly them, every appended file
-   having its own path. *)
+(* ... and Table._get_all_data_files returns exactly them, each path ONCE (its first entry) -- for every history,
+   those that register a path a second time included (Props/C15.v calls them reachable) ... *)
 Theorem C12_history_files :
+  forall (txs : list tx),
+    (forall t, In t txs -> Forall clean (tx_app t)) ->
+    table_files (run txs []) = dedup [] (spec_run txs []).
+Proof. exact history_files. Qed.
+Print Assumptions C12_history_files.
+
+(* ... which is the list itself when every appended file has its own path. *)
+Theorem C12_history_files_distinct_paths :
   forall (txs : list tx),
     (forall t, In t txs -> Forall clean (tx_app t)) ->
     NoDup (paths (concat (map tx_app txs))) ->
     table_files (run txs []) = spec_run txs [].
-Proof. exact history_files. Qed.
-Print Assumptions C12_history_files.
+Proof. exact history_files_distinct. Qed.
+Print Assumptions C12_history_files_distinct_paths.
 
 (* C12 on a table with a history: whatever transactions built the table (files appended as the writer produces them:
    exact bounds, one kind per column), for ANY bounds function that gives pruning what the manifests hold, every API
-   returns project cols (filter sql rows-of-the-live-files) -- the live files being those of the list semantics. *)
+   returns project cols (filter sql rows-of-the-live-files) -- the live files being those of the list semantics, each
+   path once (no hypothesis that paths are distinct: a path registered twice is read once). *)
 Theorem C12_history_sql :
   forall (X : value -> value -> bool) (E : cexpr -> row -> bool) (B : cexpr -> bool) (PA : parg -> bool)
          (sch : list Z) (ids : list (Z * Z)) (bounds : file -> list (Z * value) * list (Z * value))
@@ -208,12 +217,11 @@ Theorem C12_history_sql :
     valid_cols sch cols -> (forall l, concat (split l) = l) ->
     NoDup (map snd ids) ->
     appends_written ids txs ->
-    NoDup (paths (concat (map tx_app txs))) ->
     (forall d, In d (table_files (run txs [])) -> bounds (dfile_ d) = manifest_bounds d) ->
     let files := map dfile_ (table_files (run txs [])) in
     refused B ce = false ->
     (forall e f r, ce = Some e -> In f files -> In r (frows f) -> eval3 X E e r <> None) ->
-    let answer := Ok (sel cols (filter (row_selected X es) (concat (map frows (map dfile_ (spec_run txs [])))))) in
+    let answer := Ok (sel cols (filter (row_selected X es) (concat (map frows (map dfile_ (dedup [] (spec_run txs []))))))) in
     scan_table X E B PA sch ids bounds v cols flt files = answer
     /\ flat (scan_batches X E B PA sch ids bounds split cols flt files) = answer
     /\ iter_records X E B PA sch ids bounds cols flt files = answer.
@@ -273,14 +281,44 @@ Theorem C12_strict :
 Proof. exact parse_strict. Qed.
 Print Assumptions C12_strict.
 
-(* ... a SCALAR where in / not_in take a list is never read as "a set": a str is a parse error (above), any other
-   scalar fails when the expression is built -- the front end rejects the filter ... *)
+(* ... a SCALAR where in / not_in take a list is never read as "a set" (a str would be the set of its characters), and a
+   MAPPING is not the set of its keys: the parser refuses the filter ... *)
 Theorem C12_strict_value_set :
   forall (PA : parg -> bool) (f : pyfilter) (c : Z) (s : string) (v : value),
     In (c, CPair (OpStr s) (AVal v)) f -> (sql_meaning (lower s) = Some IN \/ sql_meaning (lower s) = Some NOT_IN) ->
-    exists k, prepare PA f = Err k.
+    prepare PA f = Err EParse.
 Proof. exact value_set_scalar_raises. Qed.
 Print Assumptions C12_strict_value_set.
+
+Theorem C12_strict_value_set_mapping :
+  forall (PA : parg -> bool) (f : pyfilter) (c : Z) (s : string) (vs : list value),
+    In (c, CPairIter (OpStr s) IMap vs) f -> (sql_meaning (lower s) = Some IN \/ sql_meaning (lower s) = Some NOT_IN) ->
+    prepare PA f = Err EParse.
+Proof. exact value_set_mapping_raises. Qed.
+Print Assumptions C12_strict_value_set_mapping.
+
+(* ... and WHAT HOLDS a value set is immaterial: a filter whose in / not_in value sets are held by any other iterable --
+   a set, a frozenset, a dict view, a range, or an iterator / generator that yields its elements only ONCE (`same_filter`,
+   Proofs/FilterProofs.v) -- is, for every API, on every table, with pruning, the filter with the LISTS of the same values
+   (to which C12_api_sql / C12_history_sql apply).  The parser reads the value set once (Model/Filter.v `value_set_iter`;
+   before the repair the expression builder and file pruning each iterated it: C12_one_shot_second_reading_empty is what the
+   second reader saw). *)
+Theorem C12_value_set_kind_irrelevant :
+  forall (X : value -> value -> bool) (E : cexpr -> row -> bool) (B : cexpr -> bool) (PA : parg -> bool)
+         (sch : list Z) (ids : list (Z * Z)) (bounds : file -> list (Z * value) * list (Z * value))
+         (f f' : pyfilter),
+    same_filter f f' ->
+    forall v split cols files,
+      scan_table X E B PA sch ids bounds v cols f files = scan_table X E B PA sch ids bounds v cols f' files
+      /\ scan_batches X E B PA sch ids bounds split cols f files = scan_batches X E B PA sch ids bounds split cols f' files
+      /\ iter_records X E B PA sch ids bounds cols f files = iter_records X E B PA sch ids bounds cols f' files.
+Proof. exact value_set_kind_irrelevant. Qed.
+Print Assumptions C12_value_set_kind_irrelevant.
+
+Theorem C12_one_shot_second_reading_empty :
+  forall (vs : list value), iterate IOnce vs 0 = vs /\ iterate IOnce vs 1 = [] /\ iterate IAgain vs 1 = vs.
+Proof. exact one_shot_second_reading_empty. Qed.
+Print Assumptions C12_one_shot_second_reading_empty.
 
 (* ... a filter rejected by the front end is rejected by every API on every table (the empty one and
    the all-pruned one included) ... *)
@@ -457,6 +495,40 @@ Proof.
     intros v Hv; unfold column, cell in Hv; simpl in Hv;
     try rewrite (proj2 (Z.eqb_neq c 0) N0) in Hv; try rewrite (proj2 (Z.eqb_neq c 1) N1) in Hv;
     repeat (destruct Hv as [<-|Hv]; [reflexivity|]); contradiction.
+Qed.
+
+(* non-vacuity of C12_value_set_kind_irrelevant: table {a long} of two files holding 7 and 9 (the audit's reproduction);
+   {"a": ("in", iter([7]))} is the filter {"a": ("in", [7])}: the file holding 9 is pruned, the row 7 is returned (not: every
+   file pruned, as when pruning reads the iterator a second time); a dict as value set is refused. *)
+Definition it_files : list file := [ {| frows := [ [(0, VInt 7)] ]; fcs := true |}; {| frows := [ [(0, VInt 9)] ]; fcs := true |} ].
+Definition it_flt : pyfilter := [ (0, CPairIter (OpStr "in") IOnce [VInt 7]) ].
+Definition it_flt_list : pyfilter := [ (0, CPair (OpStr "in") (AList [VInt 7])) ].
+
+Example C12_value_set_nonvacuous :
+  same_filter it_flt it_flt_list
+  /\ scan_table ex_X ex_E ex_B ex_PA [0] [(0, 1)] (stored_bounds [(0, 1)]) true None it_flt it_files = Ok [ [(0, VInt 7)] ]
+  /\ iter_records ex_X ex_E ex_B ex_PA [0] [(0, 1)] (stored_bounds [(0, 1)]) None it_flt it_files = Ok [ [(0, VInt 7)] ]
+  /\ (exists ps, parse it_flt = Ok ps /\ prune_p [(0, 1)] (stored_bounds [(0, 1)]) ps it_files = [ {| frows := [ [(0, VInt 7)] ]; fcs := true |} ])
+  /\ prepare ex_PA [ (0, CPairIter (OpStr "Not_In") IMap [VInt 7]) ] = Err EParse
+  /\ prepare ex_PA [ (0, CPair (OpStr "in") (AVal (VInt 7))) ] = Err EParse.
+Proof.
+  split.
+  { constructor; [|constructor]. split; [reflexivity|]. apply sc_iter; [discriminate|left; reflexivity]. }
+  split; [vm_compute; reflexivity|]. split; [vm_compute; reflexivity|].
+  split; [eexists; split; vm_compute; reflexivity|]. split; vm_compute; reflexivity.
+Qed.
+
+(* a history that registers a path twice (transaction 2 appends path 11 again): the manifests hold it twice, a scan reads it
+   once; the list semantics holds it twice, `dedup` once *)
+Definition hx_txs2 : list tx := hx_txs ++ [ {| tx_app := [written hx_ids 11 hx_f1]; tx_del := [] |} ].
+Example C12_history_same_path_twice :
+  map dpath (map load (concat (run hx_txs2 []))) = [11; 13; 11]
+  /\ map dpath (spec_run hx_txs2 []) = [11; 13; 11]
+  /\ map dpath (table_files (run hx_txs2 [])) = [11; 13]
+  /\ ~ NoDup (paths (concat (map tx_app hx_txs2))).
+Proof.
+  split; [vm_compute; reflexivity|]. split; [vm_compute; reflexivity|]. split; [vm_compute; reflexivity|].
+  vm_compute. intro ND. inversion ND as [|? ? _ ND1]; subst. inversion ND1 as [|? ? NI _]; subst. apply NI. simpl. tauto.
 Qed.
 
 Example C12_history_nonvacuous :
